@@ -77,6 +77,38 @@ theorem flows_interpret_code :
   refine ⟨?_, ?_, ?_, ?_, ?_, ?_, ?_, ?_, ?_, ?_, ?_, ?_, ?_, ?_, ?_, ?_, ?_, ?_, ?_, ?_, ?_, ?_⟩ <;> intros <;>
     first | rfl | (rename_i b; cases b <;> rfl)
 
+open FxVerif.Gen.C04 in
+/-- **translator tie for the refund path, the older conversion system and the precompile's token intake**: the regenerated
+call lists of `bridgeCallTransferCoins` (mint unless origin, unlock to the refund address), of erc20
+`ConvertDenomToTarget` with the three branches each of `convertNativeCoin` / `convertNativeERC20`, and of the precompile
+keeper's `convertERC20` (bank part), interpreted, ARE the model's `bridgeCallRefundCoin`, `convertDenom` (every shape:
+base → alias, alias → base, alias → alias; both ownership kinds) and the bank part of `precompileTokenIn`. -/
+theorem flows_interpret_code_conversions :
+    (∀ g c r n, interp (envRefund .fx g c r) n bridgeCallTransferCoins_unlock_sigs = some (bridgeCallRefundCoin .fx g c r n)) ∧
+    (∀ g c r n, (interp (envRefund .moduleOwned g c r) n bridgeCallTransferCoins_mint_sigs).map
+        (· ++ convertDenom .moduleOwned g r n (.chain c) .base) = some (bridgeCallRefundCoin .moduleOwned g c r n)) ∧
+    (∀ g c r n, (interp (envRefund .externalOwned g c r) n bridgeCallTransferCoins_unlock_sigs).map
+        (· ++ convertDenom .externalOwned g r n (.chain c) .base) = some (bridgeCallRefundCoin .externalOwned g c r n)) ∧
+    (∀ g h n c, interpDenom (envDenom g h .base (.chain c)) n convertDenomToTarget_sigs convertNativeCoin_fromBase_sigs =
+        some (convertDenom .moduleOwned g h n .base (.chain c))) ∧
+    (∀ g h n c, interpDenom (envDenom g h (.chain c) .base) n convertDenomToTarget_sigs convertNativeCoin_toBase_sigs =
+        some (convertDenom .moduleOwned g h n (.chain c) .base)) ∧
+    (∀ g h n c d, interpDenom (envDenom g h (.chain c) (.chain d)) n convertDenomToTarget_sigs convertNativeCoin_alias_sigs =
+        some (convertDenom .moduleOwned g h n (.chain c) (.chain d))) ∧
+    (∀ g h n c, interpDenom (envDenom g h .base (.chain c)) n convertDenomToTarget_sigs convertNativeERC20_fromBase_sigs =
+        some (convertDenom .externalOwned g h n .base (.chain c))) ∧
+    (∀ g h n c, interpDenom (envDenom g h (.chain c) .base) n convertDenomToTarget_sigs convertNativeERC20_toBase_sigs =
+        some (convertDenom .externalOwned g h n (.chain c) .base)) ∧
+    (∀ g h n c d, interpDenom (envDenom g h (.chain c) (.chain d)) n convertDenomToTarget_sigs convertNativeERC20_alias_sigs =
+        some (convertDenom .externalOwned g h n (.chain c) (.chain d))) ∧
+    convertDenomToTarget_same_sigs = [] ∧
+    (∀ g s n, interp (envPrecompile g s) n precompileConvertERC20_fx_sigs = some (bankPart (precompileTokenIn .fx g s n))) ∧
+    (∀ g s n, interp (envPrecompile g s) n precompileConvertERC20_nativeCoin_sigs =
+        some (bankPart (precompileTokenIn .moduleOwned g s n))) ∧
+    (∀ g s n, interp (envPrecompile g s) n precompileConvertERC20_nativeERC20_sigs =
+        some (bankPart (precompileTokenIn .externalOwned g s n))) := by
+  refine ⟨?_, ?_, ?_, ?_, ?_, ?_, ?_, ?_, ?_, ?_, ?_, ?_, ?_⟩ <;> intros <;> rfl
+
 /-- the interpretation is not vacuous: a send to the erc20 module account (`types.ModuleName`) has no meaning inside the
 crosschain keeper's `ConversionCoin`, and an unknown expression stops the interpretation -/
 example : interp (envConversion 1 0 (U 0) true) 5 [⟨.sendAccToMod, .holder, .types_ModuleName, .coin⟩] = none ∧
